@@ -573,10 +573,10 @@ func isPureName(name string) bool {
 type frame struct {
 	steps     int
 	headerPos map[*ssa.BasicBlock]int // decision-script position at the last visit of a loop header
-	fn     *ssa.Function
-	env    map[ssa.Value]*Term
-	depth  int
-	visits map[*ssa.BasicBlock]int
+	fn        *ssa.Function
+	env       map[ssa.Value]*Term
+	depth     int
+	visits    map[*ssa.BasicBlock]int
 }
 
 func (w *Walker) exec(fn *ssa.Function, args []*Term, bindings []*Term, depth int) ([]*Term, string) {
